@@ -29,22 +29,32 @@ EXPLANATION = (
     "(7) every output template of abbreviate_space lies in the grammar of parse_abbreviated_size; (8) client.py hands "
     "reserved_space / expire.override_lease_duration / expire.cutoff_date through the matching parser to the "
     "matching StorageServer argument, and per path of get_anonymous_storage_server the local handed to StorageServer never "
-    "still holds the tahoe.cfg text, is never replaced by a constant unless it was found None/empty (the constant for "
+    "still holds the tahoe.cfg text, is never reached after an error raised while reading the present value (a handler around "
+    "get_config that catches an InterpolationError/ValueError class) was handled, is never replaced by a constant unless it was found None/empty (the constant for "
     "an absent reserved_space being 0), and StorageServer is not reached after an exception of the parser was handled; "
     "(9) accept/reject decision: parse_duration and parse_abbreviated_size reach their result only on paths that "
     "established that the pattern matched, and parse_abbreviated_size returns None (also by falling off its end) only on "
     "paths that established that the value is None/empty; (10) iso_utc_time_to_seconds interpreted on each documented "
     "date + 'T00:00:00' (regex answered by the regex engine, timegm symbolic) returns exactly timegm(y, m, d, 0, 0, 0) "
-    "with nothing added; (11) abbreviate_space interpreted on sample sizes in both modes prints <number> <unit> whose "
+    "with nothing added, and so it does on every calendar date of a sample of leap, ordinary and century years (first and "
+    "last day of each month, 28/29 February): a range check the function makes on its fields - against calendar.mdays, "
+    "calendar.monthrange, calendar.isleap, datetime.date, all answered by the standard library's own tables - must not "
+    "reject a legal date such as 29 February; (11) abbreviate_space interpreted on sample sizes in both modes prints <number> <unit> whose "
     "unit, read with the parser's own multiplier table, gives back the size to the printed precision, and an integer "
-    "text that lies in the grammar parses back to exactly the size. "
-    "Undecided: \\d accepting non-ASCII digits and str.upper()/lower() case-folding oddities (noted in thorough "
+    "text that lies in the grammar parses back to exactly the size; (12) node.py _Config accessors "
+    "(get_config, items, enumerate_section - every method that reads self.config): with the exception hierarchy of "
+    "configparser taken from the library (Error > NoSectionError, NoOptionError, InterpolationError > ...), a handler "
+    "(or contextlib.suppress) around the read that can complete normally - i.e. hand back the caller's default - catches "
+    "none of the errors raised while reading a PRESENT value (InterpolationError family for a '%' in the value, ValueError "
+    "of a typed getter, the accessor's own UnescapedHashError); isinstance tests on the caught exception narrow the set "
+    "along the handler's paths. "
+    "Undecided: whether invalid dates such as 31 February are rejected (timegm normalises them),  \\d accepting non-ASCII digits and str.upper()/lower() case-folding oddities (noted in thorough "
     "mode), the arithmetic of calendar.timegm, ConfigParser's own whitespace stripping, the exception type with which "
     "a malformed value is rejected (any raise counts), which unit abbreviate_space picks for a size (thresholds: "
     "'0.00 MB' for 2500 bytes is faithful to its printed precision), which of SI/binary the SI flag selects, the "
     "sub-second branch of iso_utc_time_to_seconds (not reachable from tahoe.cfg), what the client does with "
     "expire.mode / expire.enabled / sharetypes (not value parsing).")
-TECHNIQUE = "static analysis: constant folding of tables and regexes, regex-language enumeration, must-precede path queries on the CFG, finite-domain AST interpretation of the suffix rewriting, the date conversion and the size printer"
+TECHNIQUE = "static analysis: constant folding of tables and regexes, regex-language enumeration, must-precede path queries on the CFG, finite-domain AST interpretation of the suffix rewriting, the date conversion (calendar tables of the standard library as constants) and the size printer, exception-class subsumption over the configparser hierarchy on the handler paths of the configuration accessors"
 
 TF = "util.time_format"
 AB = "util.abbreviate"
@@ -348,9 +358,41 @@ def empty_value_facts(p):
 
 
 class _Raised(Exception):
-    def __init__(self, what):
+    """An exception leaving the interpreted code: what (text), the raising construct, the condition of the innermost
+    enclosing `if` (guard) and, when it is a builtin exception, its class (for try/except inside the interpreted code)."""
+
+    def __init__(self, what, node=None, guard=None, cls=None):
         Exception.__init__(self, what)
-        self.what = what
+        self.what, self.node, self.guard, self.cls = what, node, guard, cls
+
+
+def _builtin_exception(e):
+    """The builtin exception class an expression names (ValueError, ValueError(...)), else None."""
+    import builtins
+    if isinstance(e, ast.Call):
+        e = e.func
+    if isinstance(e, ast.Name):
+        c = getattr(builtins, e.id, None)
+        if isinstance(c, type) and issubclass(c, BaseException):
+            return c
+    return None
+
+
+# Pure constants / functions of the standard library that a date check may consult; they are modelled by the
+# standard library itself (like the regex engine), nothing of the package under analysis is imported.
+def _stdlib_models():
+    import calendar as _cal
+    import datetime as _dt
+    out = {"calendar": {}, "datetime": {"date": _dt.date, "datetime": _dt.datetime, "MINYEAR": _dt.MINYEAR,
+                                       "MAXYEAR": _dt.MAXYEAR, "timedelta": _dt.timedelta}}
+    for nm in ("mdays", "isleap", "monthrange", "leapdays", "January", "February", "JANUARY", "FEBRUARY"):
+        if hasattr(_cal, nm):
+            out["calendar"][nm] = getattr(_cal, nm)
+    return out
+
+
+STDLIB_MODELS = _stdlib_models()
+_NO_MODEL = object()
 
 
 class _Closure:
@@ -389,12 +431,38 @@ class LocalEval(ConstEval):
     regex engine on the pattern the rule extracted, match-object accessors, calendar.timegm kept symbolic.  It records
     the return statements it executes."""
 
-    _BUILTINS = dict(ConstEval._BUILTINS, float=float, round=round, divmod=divmod, repr=repr, isinstance=isinstance)
+    _BUILTINS = dict(ConstEval._BUILTINS, float=float, round=round, divmod=divmod, repr=repr, isinstance=isinstance,
+                     map=lambda f, *its: [f(*xs) for xs in zip(*its)])
 
     def __init__(self, folder, module, uses=()):
         ConstEval.__init__(self, folder, module)
         self.uses = list(uses)
         self.returned = []
+        self.guards = []
+        self.handling = []
+
+    def stdlib_value(self, e, env):
+        """The modelled standard-library object an expression denotes (calendar.mdays, `from calendar import
+        monthrange`, datetime.date, ...), or _NO_MODEL."""
+        path = []
+        x = e
+        while isinstance(x, ast.Attribute):
+            path.append(x.attr)
+            x = x.value
+        if not isinstance(x, ast.Name) or x.id in env or x.id in self.module.assigns or x.id in self.module.funcs \
+                or x.id in self.module.classes:
+            return _NO_MODEL
+        dotted = (self.module.imports.get(x.id) or "").split(".") + path[::-1]
+        if dotted[0] not in STDLIB_MODELS or len(dotted) < 2:
+            return _NO_MODEL
+        if dotted[1] not in STDLIB_MODELS[dotted[0]]:
+            raise NotConstant("%s is not modelled" % ".".join(dotted))
+        v = STDLIB_MODELS[dotted[0]][dotted[1]]
+        for a in dotted[2:]:
+            if a.startswith("_") or not hasattr(v, a):
+                raise NotConstant("%s is not modelled" % ".".join(dotted))
+            v = getattr(v, a)
+        return v
 
     def run(self, fn, args, kwargs=None):
         kwargs = dict(kwargs or {})
@@ -432,18 +500,76 @@ class LocalEval(ConstEval):
             self.tick()
             env[st.name] = _Closure(st, env)
             return
+        guard = self.guards[-1] if self.guards else None
         if isinstance(st, ast.Raise):
             self.tick()
-            raise _Raised(ast.unparse(st.exc) if st.exc is not None else "re-raise")
+            if st.exc is None and self.handling:
+                raise self.handling[-1]
+            raise _Raised(ast.unparse(st.exc) if st.exc is not None else "re-raise", st, guard,
+                          _builtin_exception(st.exc) if st.exc is not None else None)
+        if isinstance(st, ast.Try):
+            self.tick()
+            try:
+                self.block(st.body, env)
+            except _Raised as ex:
+                for h in st.handlers:
+                    types = [] if h.type is None else (list(h.type.elts) if isinstance(h.type, ast.Tuple) else [h.type])
+                    classes = [_builtin_exception(t) for t in types]
+                    if h.type is not None and (ex.cls is None or any(c is None for c in classes)):
+                        raise NotConstant("cannot decide whether `except %s` catches %s" % (ast.unparse(h.type), ex.what))
+                    if h.type is None or issubclass(ex.cls, tuple(classes)):
+                        if h.name:
+                            env[h.name] = _Opaque("exception " + ex.what)
+                        self.handling.append(ex)
+                        try:
+                            self.block(h.body, env)
+                        finally:
+                            self.handling.pop()
+                            self.block(st.finalbody, env)
+                        return
+                self.block(st.finalbody, env)
+                raise
+            except BaseException:
+                self.block(st.finalbody, env)
+                raise
+            self.block(st.orelse, env)
+            self.block(st.finalbody, env)
+            return
+        if isinstance(st, ast.Assert):
+            self.tick()
+            if not self.expr(st.test, env):
+                raise _Raised("AssertionError", st, st.test)
+            return
+        if isinstance(st, ast.Expr) and isinstance(st.value, ast.Call) and st.value.args \
+                and call_tail(st.value) in ("precondition", "_assert", "postcondition"):
+            self.tick()
+            if not self.expr(st.value.args[0], env):
+                raise _Raised("AssertionError (%s)" % call_tail(st.value), st, st.value.args[0])
+            return
+        if isinstance(st, ast.If):
+            self.tick()
+            taken = st.body if self.expr(st.test, env) else st.orelse
+            self.guards.append(st.test)
+            try:
+                self.block(taken, env)
+            finally:
+                self.guards.pop()
+            return
         if isinstance(st, ast.Return):
             self.returned.append(st)
         return ConstEval.stmt(self, st, env)
 
     def expr(self, e, env):
+        from sa.tables import _Return
+        self.tick()
         try:
-            return ConstEval.expr(self, e, env)
-        except _Raised:
+            return self._expr(e, env)
+        except (NotConstant, _Return, _Raised):
             raise
+        except RecursionError:
+            raise NotConstant("constexpr recursion")
+        except Exception as ex:
+            raise NotConstant("constexpr: %s" % ex)
 
     def _expr(self, e, env):
         if isinstance(e, ast.JoinedStr):
@@ -457,6 +583,18 @@ class LocalEval(ConstEval):
                     spec = self._expr(v.format_spec, env) if v.format_spec is not None else ""
                     parts.append(format(self.expr(v.value, env), spec))
             return "".join(parts)
+        if isinstance(e, (ast.Attribute, ast.Name)):
+            v = self.stdlib_value(e, env)
+            if v is not _NO_MODEL:
+                return v
+        if isinstance(e, ast.Name) and e.id not in env and e.id not in self._BUILTINS:
+            try:
+                return self.folder.name(e.id, self.module, None)
+            except NotConstant:
+                defs = self.module.assigns.get(e.id) or []
+                if len(defs) != 1:
+                    raise
+                return self.expr(defs[0], {})
         if isinstance(e, ast.Call):
             for u in self.uses:
                 if e is u.call:
@@ -495,6 +633,36 @@ class LocalEval(ConstEval):
                 if not isinstance(t, tuple):
                     raise NotConstant("timegm of %r" % (t,))
                 return TimegmValue(t)
+            tgt = None
+            if isinstance(f, ast.Name) and f.id not in env and f.id not in self._BUILTINS:
+                tgt = self.folder.idx.resolve_name(self.module, f.id)
+            elif isinstance(f, ast.Attribute) and f.attr not in self._METHODS:
+                tgt = self.folder.idx.resolve_expr(self.module, f)
+            if isinstance(tgt, FuncInfo) and tgt.cls is None:
+                # a helper of the package (parse_date -> iso_utc_time_to_seconds): interpreted the same way
+                sub = LocalEval(self.folder, tgt.module, self.uses)
+                sub.steps = self.steps
+                try:
+                    v = sub.run(tgt, [self.expr(x, env) for x in e.args],
+                                {k.arg: self.expr(k.value, env) for k in e.keywords if k.arg})
+                finally:
+                    self.steps = sub.steps
+                return v
+            if isinstance(f, (ast.Attribute, ast.Name)):
+                target = self.stdlib_value(f, env)
+                if target is not _NO_MODEL:
+                    if not callable(target):
+                        raise NotConstant("%s is not callable" % ast.unparse(f))
+                    args = [self.expr(x, env) for x in e.args]
+                    kwargs = {k.arg: self.expr(k.value, env) for k in e.keywords if k.arg}
+                    if any(isinstance(x, (TimegmValue, _Opaque, _Closure)) for x in args + list(kwargs.values())):
+                        raise NotConstant("%s applied to a symbolic value" % ast.unparse(f))
+                    try:
+                        return target(*args, **kwargs)
+                    except Exception as ex:
+                        # the library function itself rejects the arguments (datetime.date(2023, 2, 30))
+                        raise _Raised("%s: %s (from %s)" % (type(ex).__name__, ex, ast.unparse(e)), e,
+                                      self.guards[-1] if self.guards else None, type(ex))
             if isinstance(f, ast.Name) and f.id in ("int", "float") and f.id not in env and len(e.args) == 1:
                 v = self.expr(e.args[0], env)
                 if isinstance(v, TimegmValue):
@@ -505,6 +673,31 @@ class LocalEval(ConstEval):
                 if isinstance(recv, re.Match):
                     return getattr(recv, f.attr)(*[self.expr(x, env) for x in e.args])
         return ConstEval._expr(self, e, env)
+
+
+def _is_modelled(module, x):
+    """x is a reference to a modelled standard-library constant / function (calendar.mdays, monthrange, ...)."""
+    path = []
+    while isinstance(x, ast.Attribute):
+        path.append(x.attr)
+        x = x.value
+    if not isinstance(x, ast.Name):
+        return False
+    dotted = (module.imports.get(x.id) or "").split(".") + path[::-1]
+    return len(dotted) >= 2 and dotted[0] in STDLIB_MODELS and dotted[1] in STDLIB_MODELS[dotted[0]]
+
+
+def calendar_samples():
+    """Legal calendar dates YYYY-MM-DD: first and last day of every month plus 28 (and 29) February, for leap years
+    (also the century leap year 2000), ordinary years and the non-leap century year 2100."""
+    import calendar as _cal
+    out = []
+    for y in (1970, 1972, 1999, 2000, 2023, 2024, 2028, 2038, 2100):
+        for mth in range(1, 13):
+            last = _cal.monthrange(y, mth)[1]
+            days = {1, last} | ({28} if mth == 2 else set())
+            out.extend("%04d-%02d-%02d" % (y, mth, dd) for dd in sorted(days))
+    return out
 
 
 LEAD_JUNK = ("x", "-", "1.", "1,", "= ", "x\n")
@@ -649,11 +842,18 @@ def group_index(s):
     return None
 
 
-def plumbing_paths(r, fn, sscall, var, kw, parser, key):
+def plumbing_paths(r, fn, sscall, var, kw, parser, key, idx):
     """Follow the local `var` along every path of fn into StorageServer(kw=var): it must not arrive (a) still holding
     the configuration text, (b) with the parsed value replaced by a constant on a path that did not find it None /
     empty, (c) after the parser's rejection (an exception leaving the parser call) was handled and execution went on.
-    A constant default for the absent reserved_space must be 0 (nothing reserved)."""
+    A constant default for the absent reserved_space must be 0 (nothing reserved).  (d) Nor after an error raised while
+    READING the present value (InterpolationError for a '%', ...) was handled: a handler around the get_config call
+    that catches such a class and lets execution go on to StorageServer replaces a malformed value silently."""
+    present = present_value_errors()
+
+    def reads_key(c):
+        return call_tail(c) == "get_config" and len(c.args) >= 2 and all(isinstance(x, ast.Constant) for x in c.args[:2]) \
+            and (c.args[0].value, c.args[1].value) == ("storage", key)
     cfg = fn.cfg()
     fnorm = FlowNorm(fn)
     targets = [n for n in cfg.nodes if any(c is sscall for c in node_calls(n))]
@@ -684,7 +884,11 @@ def plumbing_paths(r, fn, sscall, var, kw, parser, key):
         kind, rej = st
         if lab == "exc":
             if n.kind == "stmt" and any(call_tail(c) == parser for c in node_calls(n)):
-                rej = True
+                rej = rej or True
+            if n.kind == "stmt" and nxt.kind == "except" and any(reads_key(c) for c in node_calls(n)):
+                hcls = exc_class(idx, fn.module, nxt.ast.type)
+                if any(exc_catches(idx, hc, u) for hc in hcls for u in present):
+                    rej = "read"
             return (kind, rej)
         if n.kind == "stmt" and var in node_stores(n):
             kind = classify(fnorm._def_value(n, var), kind)
@@ -698,12 +902,17 @@ def plumbing_paths(r, fn, sscall, var, kw, parser, key):
     visited, parent = explore(cfg, ("undef", False), transfer)
     r.count(len(visited))
     seen = set()
-    for (nid, st) in sorted(visited, key=lambda x: (x[0], x[1][0], x[1][1])):
+    for (nid, st) in sorted(visited, key=lambda x: (x[0], x[1][0], str(x[1][1]))):
         if nid != target.id:
             continue
         kind, rej = st
         w = witness(cfg, parent, (nid, st))
-        if rej and "rej" not in seen:
+        if rej == "read" and "rejread" not in seen:
+            seen.add("rejread")
+            r.violation(fn, fn.loc(sscall), "StorageServer(%s=...) is reached after an error raised while reading the present "
+                        "[storage]%s value (configparser.InterpolationError for a '%%' in it, ...) was handled around "
+                        "get_config: a malformed value does not stop the node, it is silently replaced" % (kw, key), w)
+        if rej is True and "rej" not in seen:
             seen.add("rej")
             r.violation(fn, fn.loc(sscall), "StorageServer(%s=...) is reached after an exception of %s was handled: a "
                         "[storage]%s value the parser rejects does not stop the node, it is silently replaced" % (
@@ -720,6 +929,89 @@ def plumbing_paths(r, fn, sscall, var, kw, parser, key):
         elif kind.startswith("default:") and kw == "reserved_space":
             r.require(kind in ("default:0", "default:0.0"), fn, fn.loc(sscall), "an absent [storage]%s reaches "
                       "StorageServer(%s=...) as %s, not as 0 (nothing reserved)" % (key, kw, kind[8:]), w)
+
+
+# ------------------------------------------------------------------ exception classes of the configuration reader
+CONFIG_READERS = ("get", "getboolean", "getint", "getfloat", "items", "options", "__getitem__")
+
+
+def exc_class(idx, m, e, depth=0):
+    """[class] an `except` type expression / base-class expression denotes: standard-library classes (builtins and
+    configparser, whose hierarchy Error > NoSectionError, NoOptionError, InterpolationError > ... is taken from the
+    library itself) as the real class objects, classes of the package as ClassInfo.  A tuple - also one held in a module
+    constant - gives several."""
+    import builtins
+    import configparser as _cp
+    if e is None:
+        return [BaseException]
+    if depth > 4:
+        raise AnalysisError("exception class expression too deep: %s" % ast.unparse(e))
+    if isinstance(e, ast.Tuple):
+        return [c for x in e.elts for c in exc_class(idx, m, x, depth + 1)]
+    if isinstance(e, ast.Attribute) and isinstance(e.value, ast.Name) and m.imports.get(e.value.id) == "configparser":
+        c = getattr(_cp, e.attr, None)
+        if isinstance(c, type) and issubclass(c, BaseException):
+            return [c]
+    if isinstance(e, ast.Name):
+        imp = m.imports.get(e.id) or ""
+        if imp.startswith("configparser."):
+            c = getattr(_cp, imp[len("configparser."):], None)
+            if isinstance(c, type) and issubclass(c, BaseException):
+                return [c]
+        if e.id not in m.imports and e.id not in m.classes and e.id not in m.assigns:
+            c = getattr(builtins, e.id, None)
+            if isinstance(c, type) and issubclass(c, BaseException):
+                return [c]
+        defs = m.assigns.get(e.id) or []
+        if len(defs) == 1 and e.id not in m.classes:
+            return exc_class(idx, m, defs[0], depth + 1)
+    tgt = idx.resolve_expr(m, e)
+    if isinstance(tgt, ClassInfo):
+        return [tgt]
+    raise AnalysisError("cannot resolve the exception class %s in %s" % (ast.unparse(e), m.name))
+
+
+def exc_name(c):
+    return c.name if isinstance(c, ClassInfo) else c.__name__
+
+
+def exc_catches(idx, handler_cls, raised):
+    """`except handler_cls` catches an exception of class `raised` (both as returned by exc_class)."""
+    if isinstance(raised, ClassInfo):
+        if isinstance(handler_cls, ClassInfo):
+            return any(c.qual == handler_cls.qual for c in raised.mro())
+        for c in raised.mro():
+            for b in c.base_exprs:
+                try:
+                    bases = exc_class(idx, c.module, b)
+                except AnalysisError:
+                    continue
+                if any(not isinstance(x, ClassInfo) and issubclass(x, handler_cls) for x in bases):
+                    return True
+        return False
+    if isinstance(handler_cls, ClassInfo):
+        return False
+    return issubclass(raised, handler_cls)
+
+
+def present_value_errors():
+    """Exception classes ConfigParser raises while reading a PRESENT value (not: section/option absent)."""
+    import configparser as _cp
+    return [_cp.InterpolationError, _cp.InterpolationSyntaxError, _cp.InterpolationMissingOptionError,
+            _cp.InterpolationDepthError, ValueError]
+
+
+def config_reads(node_list):
+    """Calls self.config.<reader>(...) / subscripts self.config[...] among the given statements."""
+    out = []
+    for st in node_list:
+        for x in ast.walk(st):
+            if isinstance(x, ast.Call) and isinstance(x.func, ast.Attribute) and x.func.attr in CONFIG_READERS \
+                    and attr_path(x.func.value) == "self.config":
+                out.append(x)
+            elif isinstance(x, ast.Subscript) and isinstance(x.ctx, ast.Load) and attr_path(x.value) == "self.config":
+                out.append(x)
+    return out
 
 
 def run(ctx: Context):
@@ -1029,7 +1321,8 @@ def run(ctx: Context):
     # =================================================================== 5
     date = {}
     with ctx.rule("C48.5", "R11", "parse_date = int(iso_utc_time_to_seconds(s + 'T00:00:00')); the regex groups year..second "
-                  "feed calendar.timegm in that order; documented dates are accepted", expected=5) as r:
+                  "feed calendar.timegm in that order; documented dates and every calendar date (month ends, leap days) are "
+                  "accepted and read as midnight of that day", expected=6) as r:
         fn = idx.func(TF + ":parse_date")
         p = first_positional_params(fn)[0]
         rets = fn.cfg().find(is_return)
@@ -1124,6 +1417,45 @@ def run(ctx: Context):
             r.require(out.offset == 0, iso, iso.loc(tg[0]), "iso_utc_time_to_seconds(%r) (no fraction given) returns "
                       "timegm(...) %+g: the documented cutoff date %r is not read as midnight UTC of that day" % (
                           text, out.offset, d))
+        # every date of the calendar is a legal cutoff date: parse_date itself (and through it iso_utc_time_to_seconds)
+        # interpreted on the first and last day of every
+        # month (and 28/29 February) of leap, non-leap and century years; a check the function makes on its fields
+        # (against calendar.mdays, calendar.monthrange, datetime.date ...) is evaluated with the library's own tables
+        rejected, misread = {}, []
+        puses = [u for u in regex_uses(idx, fn) if u.call is not iuse.call] + [iuse]
+        for d in calendar_samples():
+            ev = LocalEval(folder, fn.module, puses)
+            try:
+                out = ev.run(fn, [d])
+            except _Raised as ex:
+                rejected.setdefault(id(ex.node), (ex, []))[1].append(d)
+                continue
+            except NotConstant as ex:
+                raise AnalysisError("cannot interpret parse_date on %r: %s" % (d, ex))
+            r.count(ev.steps)
+            fields = tuple(int(x) for x in d.split("-")) + (0, 0, 0)
+            if not isinstance(out, TimegmValue) or tuple(out.fields[:6]) != fields or out.offset != 0:
+                misread.append((d, out))
+        r.site("calendar dates (month ends, leap days)")
+        for ex, ds in rejected.values():
+            owner = fn if ex.node is not None and any(x is ex.node for x in ast.walk(fn.node)) else iso
+            at = ex.node if ex.node is not None else mc
+            why = ""
+            if ex.guard is not None:
+                why = " under the condition `%s`" % src(owner, ex.guard)
+                tabs = sorted({ast.unparse(x) for x in ast.walk(ex.guard) if isinstance(x, (ast.Attribute, ast.Name))
+                               and _is_modelled(owner.module, x)})
+                if tabs:
+                    why += " (%s knows no leap day / is not the calendar of the given year)" % ", ".join(tabs) \
+                        if any(x.endswith("-02-29") for x in ds) else " (uses %s)" % ", ".join(tabs)
+            r.violation(owner, owner.loc(at), "%s rejects %d valid calendar date(s), e.g. %s: it raises %s%s; "
+                        "parse_date refuses a legal expire.cutoff_date" % (
+                            owner.name, len(ds), ", ".join(repr(x) for x in ds[:5]), ex.what, why))
+        if misread:
+            d, out = misread[0]
+            shown = "timegm%r%+g" % (tuple(out.fields[:6]), out.offset) if isinstance(out, TimegmValue) else repr(out)
+            r.violation(fn, fn.loc(), "parse_date(%r) evaluates to %s, not to timegm of midnight UTC of that day "
+                        "(%d calendar dates are misread)" % (d, shown, len(misread)))
         date = {"pattern": pattern, "rast": rast, "how": how, "iso": iso, "mc": mc, "fn": fn, "use": iuse, "rx": rx, "dates": dates}
 
     # =================================================================== 6
@@ -1345,7 +1677,104 @@ def run(ctx: Context):
                         parser, sorted(ks), key))
             # path-sensitive: what the local holds on each path into StorageServer(...)
             if isinstance(v, ast.Name):
-                plumbing_paths(r, fn, ss[0], v.id, kw, parser, key)
+                plumbing_paths(r, fn, ss[0], v.id, kw, parser, key, idx)
+
+    # =================================================================== 10
+    with ctx.rule("C48.10", "R11", "node.py _Config: a configuration accessor gives the caller's default (or any normal result) "
+                  "after an exception only for the 'section/option absent' classes; an error raised while reading a "
+                  "PRESENT value (configparser.InterpolationError family, ValueError of a typed getter, the accessor's own "
+                  "UnescapedHashError) propagates", expected=3) as r:
+        import configparser as _cp
+        gc = idx.func("node:_Config.get_config")
+        ci = gc.cls
+        if ci is None:
+            raise AnchorVanished("get_config is no longer a method of the configuration class")
+        if not config_reads(gc.node.body):
+            raise AnchorVanished("_Config.get_config no longer reads self.config.get*/[...]")
+        absent = (_cp.NoSectionError, _cp.NoOptionError, KeyError)
+        present_errors = present_value_errors()
+        for meth in sorted(ci.methods.values(), key=lambda f: f.qual):
+            reads = config_reads(meth.node.body)
+            if not reads:
+                continue
+            m = meth.module
+            cfg = meth.cfg()
+            for c in reads:
+                r.site(meth, c, "read")
+            protected = []          # (description, located node, [handler classes], except-CFG-node or None, excvar)
+            for t in func_own_nodes(meth):
+                if isinstance(t, ast.Try) and config_reads(t.body):
+                    # errors the body raises itself on a present value
+                    own = []
+                    for x in t.body:
+                        for y in ast.walk(x):
+                            if isinstance(y, ast.Raise) and y.exc is not None:
+                                ex = y.exc.func if isinstance(y.exc, ast.Call) else y.exc
+                                try:
+                                    own.extend(exc_class(idx, m, ex))
+                                except AnalysisError:
+                                    pass
+                    pending = list(present_errors) + own
+                    for h in t.handlers:
+                        hcls = exc_class(idx, m, h.type)
+                        got = [u for u in pending if any(exc_catches(idx, hc, u) for hc in hcls)]
+                        pending = [u for u in pending if not any(u is g for g in got)]
+                        hn = [n for n in cfg.nodes if n.kind == "except" and n.ast is h]
+                        if len(hn) != 1:
+                            raise AnalysisError("%s: handler at %s not found in the CFG" % (meth.qual, meth.loc(h)))
+                        protected.append((h, hcls, got, hn[0]))
+                elif isinstance(t, (ast.With, ast.AsyncWith)) and config_reads(t.body):
+                    for it in t.items:
+                        ce = it.context_expr
+                        if isinstance(ce, ast.Call) and call_tail(ce) == "suppress":
+                            hcls = [c for a in ce.args for c in exc_class(idx, m, a)]
+                            got = [u for u in present_errors if any(exc_catches(idx, hc, u) for hc in hcls)]
+                            r.count(1)
+                            r.require(not got, meth, meth.loc(ce), "%s suppresses %s around the read of self.config: an error "
+                                      "raised while reading a PRESENT value (%s - e.g. '%%' in 'reserved_space = 10%%') is "
+                                      "swallowed and the method goes on as if the option were absent" % (
+                                          src(meth, ce), "/".join(exc_name(c) for c in hcls),
+                                          ", ".join(exc_name(u) for u in got)))
+            for (h, hcls, got, hnode) in protected:
+                if not got:
+                    r.count(1)
+                    continue
+                # follow the handler body: isinstance(<exc>, T) tests narrow the classes still in hand; reaching the
+                # normal exit (return default, fall through) with a present-value error in hand swallows it
+                var = h.name
+
+                def transfer(n, lab, nxt, state, _var=var, _m=m, _h=hnode):
+                    if lab == "exc":
+                        return None
+                    st, bound = state
+                    if n.kind == "stmt" and _var and n is not _h and _var in node_stores(n):
+                        bound = False       # the name no longer holds the caught exception: no more narrowing
+                    if n.kind == "test" and isinstance(lab, tuple) and _var and bound:
+                        t, pol = n.ast, lab[0] == "T"
+                        while isinstance(t, ast.UnaryOp) and isinstance(t.op, ast.Not):
+                            t, pol = t.operand, not pol
+                        if isinstance(t, ast.Call) and call_name(t) == "isinstance" and len(t.args) == 2 \
+                                and isinstance(t.args[0], ast.Name) and t.args[0].id == _var:
+                            tcls = exc_class(idx, _m, t.args[1])
+                            st = frozenset(i for i in st if any(exc_catches(idx, tc, got[i]) for tc in tcls) == pol)
+                            if not st:
+                                return None
+                    return (st, bound)
+                visited, parent = explore(cfg, (frozenset(range(len(got))), True), transfer, start=hnode)
+                r.count(len(visited))
+                ends = sorted(((nid, st) for (nid, st) in visited if nid == cfg.exit.id),
+                              key=lambda x: (-len(x[1][0]), sorted(x[1][0]), x[1][1]))
+                if ends:
+                    nid, st = ends[0]
+                    swallowed = [got[i] for i in sorted(st[0])]
+                    r.violation(meth, meth.loc(h), "`except %s` of %s also catches %s, raised while reading a PRESENT value, "
+                                "and the handler completes normally (returns the caller's default): a malformed value - e.g. "
+                                "'reserved_space = 10%%', whose '%%' makes ConfigParser's interpolation fail - is silently read "
+                                "as if the option were absent instead of stopping the node; only %s mean 'absent'" % (
+                                    src(meth, h.type) if h.type is not None else "<everything>", short(meth),
+                                    ", ".join(exc_name(u) for u in swallowed),
+                                    "/".join(exc_name(c) for c in absent[:2])),
+                                witness(cfg, parent, (nid, st)))
 
     if ctx.thorough:
         ctx.note("C48 (informational, undecided): \\d in the duration/size/date patterns also accepts non-ASCII decimal "
